@@ -141,11 +141,14 @@ def _judge(model, cls, kind, sym, fields, pss, mem):
                 f"result is not {fn}(rec(child) for child in children)"
     if kind == "compare":
         rv = rets[0].retval
+        imports = mem.owner.module.imports
+        opmods = {("global", k) for k, v in imports.items()
+                  if v == ("module", "operator")} | {("global", "operator")}
         ok = (rv[0] == "call" and len(rv) >= 5 and rv[2] == (R("left"), R("right"))
-              and rv[4] == ("call", "getattr", (
-                  ("global", "operator"),
-                  ("index", ("attr", NODE, "operator_to_name"), None,
-                   ("field", "operator"))), ()))
+              and isinstance(rv[4], tuple) and rv[4][:2] == ("call", "getattr")
+              and len(rv[4][2]) == 2 and rv[4][2][0] in opmods
+              and rv[4][2][1] == ("index", ("attr", NODE, "operator_to_name"),
+                                  None, ("field", "operator")))
         return ok, "operator.<name[op]>(rec(left), rec(right))" if ok else \
             ("result is not getattr(operator, operator_to_name[operator])"
              "(rec(left), rec(right))")
@@ -419,9 +422,27 @@ def _variants(ctx, model):
            "CachedMapper and 'context' bound to the constructor argument")
     for fname in ("evaluate", "evaluate_kw", "evaluate_to_float"):
         m, fn = model.func(f"{EV}:{fname}")
-        r = [x for x in ast.walk(fn) if isinstance(x, ast.Return)]
-        ok = bool(r) and ast.unparse(r[-1].value).replace(" ", "") == \
-            "mapper_cls(context)(expression)"
+        # every return applies mapper_cls(<the context>) to the expression
+        ok = True
+        n_ret = 0
+        for ps in summarize(fn, plain=True):
+            if ps.term != "return":
+                continue
+            n_ret += 1
+            rv = ps.retval
+            callee = rv[4] if isinstance(rv, tuple) and len(rv) >= 5 else None
+            good = isinstance(rv, tuple) and rv[0] == "call" and \
+                rv[2] == (("param", "expression"),) and \
+                isinstance(callee, tuple) and callee[0] == "call" and \
+                (callee[4] == ("param", "mapper_cls") if len(callee) >= 5
+                 else callee[1] == "mapper_cls") and len(callee[2]) == 1
+            if good:
+                c = callee[2][0]
+                good = c in (("param", "context"), ("kwargs",),
+                             ("litdict", (), ())) or (
+                    c[0] == "dictextend" and False)
+            ok = ok and good
+        ok = ok and n_ret >= 1
         ctx.ob(f"P/{fname}/entry", ok, m.loc(fn),
                "mapper_cls(context)(expression)" if ok else
                f"{fname} does not apply mapper_cls(context) to the expression")
